@@ -62,7 +62,7 @@ func ruleFlushRules(c *Ctx, r *Reporter) {
 		return
 	}
 	fn := a.flushMem
-	r.Rule("flush-dedup-table", 8)
+	r.Rule("flush-dedup-table", 10)
 	// collecting loop: the loop that calls Iterator.Key and Iterator.Next
 	var loop *GenericLoop
 	for _, l := range GenericLoops(fn) {
@@ -132,6 +132,8 @@ func ruleFlushRules(c *Ctx, r *Reporter) {
 				{"same-key,seq>stored,tombstone", 5, 5, 6, 5, NilRank, false, true},
 				{"same-key,seq=stored", 5, 5, 5, 5, 7, false, false},
 				{"same-key,seq<stored", 5, 5, 4, 5, 7, false, false},
+				{"same-key,seq=stored,tombstone", 5, 5, 5, 5, NilRank, false, false},
+				{"same-key,seq<stored,tombstone", 5, 5, 4, 5, NilRank, false, false},
 			}
 			for _, rw := range rows {
 				sc := &Scenario{Terms: map[string]int64{"phi:" + prevPhi.Comment: rw.prev, lastSeqPath: rw.last, "phi:" + entriesPhi.Comment: 1, "len(phi:" + entriesPhi.Comment + ")": 3}, Bools: map[string]bool{}}
@@ -145,7 +147,7 @@ func ruleFlushRules(c *Ctx, r *Reporter) {
 				appended := ev.PhiNext(entriesPhi) != ssa.Value(entriesPhi)
 				replaced := false
 				for _, e := range ev.Effects {
-					if e.Kind == "store" && strings.HasPrefix(e.What, "&phi:"+entriesPhi.Comment+"[") {
+					if e.Kind == "store" && strings.HasPrefix(strings.TrimLeft(e.What, "&"), "phi:"+entriesPhi.Comment+"[") {
 						replaced = true
 					}
 				}
